@@ -49,6 +49,14 @@ theorem C01_core_expr (prog : Prog) (fuel : Nat) (env : Src.Env) (benv : BEnv) (
   obtain ⟨he, hr, hp⟩ := h.1 v env' hv
   exact ⟨he, hr.hasType_encode.1, hr.hasType_encode.2, hp⟩
 
+/-- **the fragment is type-sound**: a program that `bitStmts` accepts never gets stuck in the source
+semantics — with enough fuel it returns a value of its type or fails with one of the three panics -/
+theorem C01_core_defined (prog : Prog) (fuel : Nat) (env : Src.Env) (benv : BEnv) (body : StmtList)
+    (t : STy) (bits : List Bool) (p : P)
+    (henv : EnvRel env benv) (hbits : bitStmts benv body = some (t, bits, p)) :
+    ∀ why, evalStmts fuel prog env body ≠ .error (.stuck why) :=
+  (noStuck_all prog fuel fuel (Nat.le_refl _)).2 body env benv t bits p henv hbits
+
 /-- non-vacuity: `x + 1u8` with `x = 255`: the source semantics fail with Overflow, and so does the
 bit-level evaluation; with `x = 7` both give 8 -/
 example : bitExpr [("x", .int .u8, enc .u8 255)] (.bin .add (.int .u8) (.var "x") (.int 1 .u8)) =
